@@ -183,7 +183,7 @@ def run(tier, seed, out, drv, facts):
     for call in annotation_error_cases():
         for ck in ("typeguard", "beartype"):
             run_call(out, drv, facts, call, ck, False, rng, "misuse")
-    n = 5000 if thorough else 400
+    n = 40000 if thorough else 400
     for i in range(n):
         call, class_only = gen_call(rng, thorough)
         run_call(out, drv, facts, call, "typeguard", bool(i % 2), rng, "call")
